@@ -225,6 +225,13 @@ func (s *Stream) decode(r io.Reader, parsedTypes TypeMap, p2p bool) (TypeMap,
 			return nil, ErrRecordTooLarge
 		}
 
+		// A length that doesn't fit into an int64 can never be
+		// satisfied by the remaining stream, and must not reach the
+		// signed arithmetic of the readers below.
+		if length > math.MaxInt64 {
+			return nil, io.ErrUnexpectedEOF
+		}
+
 		// Search the records known to the stream for this type. We'll
 		// begin the search and recordIdx and walk forward until we find
 		// it or the next record's type is larger.
@@ -263,7 +270,13 @@ func (s *Stream) decode(r io.Reader, parsedTypes TypeMap, p2p bool) (TypeMap,
 			var b *bytes.Buffer
 			writer := io.Discard
 			if parsedTypes != nil {
-				b = bytes.NewBuffer(make([]byte, 0, length))
+				// Don't let the encoded length dictate the
+				// allocation, the value may not be there.
+				capHint := length
+				if capHint > MaxRecordSize {
+					capHint = MaxRecordSize
+				}
+				b = bytes.NewBuffer(make([]byte, 0, capHint))
 				writer = b
 			}
 
